@@ -96,6 +96,10 @@ scheme, as they don't correspond to any particular rule.`,
 				if err = parseRuleId(filename); err == nil {
 					filePath = path.Join(ctxt.RootContext().AssemblyDir(), ruleValues.fileName)
 				}
+				// the argument may contain path elements: only regex-assembly files are ever formatted
+				if path.Ext(filePath) != ".ra" || !strings.HasPrefix(filePath, path.Clean(ctxt.RootContext().AssemblyDir())+"/") {
+					return fmt.Errorf("'%s' does not name a regex-assembly file", args[0])
+				}
 				err = processFile(filePath, ctxt, checkOnly)
 			}
 
